@@ -42,7 +42,20 @@ def shape(s):
     return "+".join(f) or "plain"
 
 
-def check_case(ref, s):
+def alias_probes(ref, s):
+    """The searches that name one alias of a ',' list of s alone, in the place of the list (last segment, leaf-key filter)."""
+    import re
+    out = []
+    for m in re.finditer(r"[^/?&=]*,[^/?&=]*", s):
+        for tok in m.group(0).split(","):
+            if tok.strip() in ref.alias:
+                q = s[:m.start()] + tok.strip() + s[m.end():]
+                if q not in out:
+                    out.append(q)
+    return out
+
+
+def check_case(ref, s, nested=False):
     from spil import Sid, SpilException
     from spil.sid.read.tools import unfold_search
     from mc.ref import search as rs
@@ -57,6 +70,14 @@ def check_case(ref, s):
     except rs.SpilExc:
         req, alw, exp_exc = set(), set(), True
     o = observe(Sid, unfold_search, SpilException, s)
+    if not nested and "," in s:
+        # a list that names an alias must leave the alias what the configuration says: the alias alone, asked next (cold caches)
+        from mc import env
+        for q in alias_probes(ref, s):
+            env.reset()
+            for v in check_case(ref, q, nested=True)[0]:
+                bad("alias-alone-wrong-after-a-list-naming-it/" + v["signature"], [q, v["observed"]], v["expected"])
+                break
     cls = "exc-shape" if exp_exc else ("empty" if not alw else ("one" if len(alw) == 1 else "many"))
     if o[0] == "exc":
         path, _, q = s.partition("?")
@@ -175,6 +196,8 @@ def run_shard(sh):
         rec.case(cls, cls != "empty", sample=s)
         for v in viols:
             rec.violation(v["signature"], "search", s, v["observed"], v["expected"])
+        if any(v["signature"].startswith("alias-alone-wrong-after") for v in viols):
+            break       # the process's configuration is no longer what was loaded: nothing observed after this point counts
     return rec.result()
 
 
